@@ -823,3 +823,70 @@ pub fn three_man(idx: u64) -> Option<MPos> {
     p.white_to_move = side == 0;
     Some(p)
 }
+
+/// G3: SAN disambiguation crowd — several like pieces of the side to move aim at one square,
+/// some of them pinned against their own king.
+pub fn fam_san_crowd(rng: &mut Rng) -> MPos {
+    let mut p = MPos::empty();
+    p.white_to_move = rng.chance(1, 2);
+    let w = p.white_to_move;
+    let t = rng.below(64) as u8;
+    let k = *rng.pick(b"NNRRQQB");
+    if rng.chance(1, 2) {
+        p.sq[t as usize] = man(!w, *rng.pick(b"PNBRQ"));
+        if kind(p.at(t)) == b'P' && (rank_of(t) == 0 || rank_of(t) == 7) {
+            p.sq[t as usize] = man(!w, b'N');
+        }
+    }
+    // candidate origin squares on an otherwise empty board
+    let mut origins: Vec<Sq> = Vec::new();
+    match k {
+        b'N' => {
+            for (df, dr) in KNIGHT_D {
+                if let Some(s) = step(t, df, dr) {
+                    origins.push(s);
+                }
+            }
+        }
+        _ => {
+            let dirs: Vec<(i8, i8)> = match k {
+                b'R' => ROOK_D.to_vec(),
+                b'B' => BISHOP_D.to_vec(),
+                _ => KING_D.to_vec(),
+            };
+            for (df, dr) in dirs {
+                let line = line_squares(t, df, dr);
+                if !line.is_empty() {
+                    // one origin per ray (the nearest piece blocks the rest)
+                    origins.push(*rng.pick(&line));
+                }
+            }
+        }
+    }
+    rng.shuffle(&mut origins);
+    let n = rng.range(2, 5).min(origins.len());
+    for &o in origins.iter().take(n) {
+        if p.at(o) == EMPTY {
+            p.sq[o as usize] = man(w, k);
+        }
+    }
+    // own king, maybe in line with one of the crowd and an enemy slider behind it (a pin)
+    let crowd: Vec<Sq> = (0..64u8).filter(|&s| p.at(s) == man(w, k)).collect();
+    if !crowd.is_empty() && rng.chance(2, 3) {
+        let c = *rng.pick(&crowd);
+        let (df, dr) = *rng.pick(&KING_D);
+        let kline: Vec<Sq> = line_squares(c, df, dr).into_iter().filter(|&s| p.at(s) == EMPTY).collect();
+        let sline: Vec<Sq> = line_squares(c, -df, -dr).into_iter().filter(|&s| p.at(s) == EMPTY).collect();
+        if !kline.is_empty() && !sline.is_empty() {
+            p.sq[*rng.pick(&kline) as usize] = man(w, b'K');
+            let diag = df != 0 && dr != 0;
+            let sl = if rng.chance(1, 3) { b'Q' } else if diag { b'B' } else { b'R' };
+            p.sq[*rng.pick(&sline) as usize] = man(!w, sl);
+        }
+    }
+    place_kings(rng, &mut p);
+    let extra = rng.below(5);
+    decorate(rng, &mut p, extra);
+    random_counters(rng, &mut p);
+    p
+}
